@@ -249,13 +249,37 @@ func instrumentPackage(label, dir string, p *packages.Package) {
 			pkgVars = append(pkgVars, n)
 		}
 	}
-	if len(pkgVars) > 0 && len(p.CompiledGoFiles) > 0 {
+	// named types of this package that declare lock methods of their own (as opposed to
+	// inheriting them from an embedded sync.Mutex / RWMutex): the dynamic lock shims call those
+	// methods - their bodies are instrumented - instead of looking for an embedded primitive
+	var ownLockers []string
+	for _, n := range names {
+		tn, ok := scope.Lookup(n).(*types.TypeName)
+		if !ok {
+			continue
+		}
+		named, ok := tn.Type().(*types.Named)
+		if !ok {
+			continue
+		}
+		for i := 0; i < named.NumMethods(); i++ {
+			switch named.Method(i).Name() {
+			case "Lock", "Unlock", "RLock", "RUnlock", "TryLock", "TryRLock":
+				ownLockers = append(ownLockers, p.PkgPath+"."+n)
+			}
+		}
+	}
+	if (len(pkgVars) > 0 || len(ownLockers) > 0) && len(p.CompiledGoFiles) > 0 {
 		var b strings.Builder
 		fmt.Fprintf(&b, "// Code generated by /verif/sim/instr. DO NOT EDIT.\n\npackage %s\n\nimport __simrt \"verif.local/simrt\"\n\nfunc init() {\n\t__simrt.RegisterGlobals(%q, []__simrt.Global{\n", p.Name, p.PkgPath)
 		for _, n := range pkgVars {
 			fmt.Fprintf(&b, "\t\t{Name: %q, Ptr: &%s},\n", n, n)
 		}
-		b.WriteString("\t})\n}\n")
+		b.WriteString("\t})\n")
+		for _, n := range ownLockers {
+			fmt.Fprintf(&b, "\t__simrt.RegisterOwnLocker(%q)\n", n)
+		}
+		b.WriteString("}\n")
 		gen := filepath.Join(filepath.Dir(p.CompiledGoFiles[0]), "zz_verifsim_globals.go")
 		if err := os.WriteFile(gen, []byte(b.String()), 0o644); err != nil {
 			fatal = append(fatal, err.Error())
@@ -504,7 +528,7 @@ func instrumentFile(label string, p *packages.Package, f *ast.File, fc *fileCtx)
 					break
 				}
 			}
-			if sel := info.Selections[x]; sel != nil && sel.Kind() == types.MethodVal && len(sel.Index()) == 1 {
+			if sel := info.Selections[x]; sel != nil && sel.Kind() == types.MethodVal {
 				if m, ok := sel.Obj().(*types.Func); ok && m.Pkg() != nil && m.Pkg().Path() == "sync" {
 					rs := strings.TrimPrefix(m.Type().(*types.Signature).Recv().Type().String(), "*")
 					shim := ""
@@ -516,11 +540,8 @@ func instrumentFile(label string, p *packages.Package, f *ast.File, fc *fileCtx)
 					case "sync.WaitGroup":
 						shim = map[string]string{"Done": "WGDone", "Wait": "WGWait"}[m.Name()]
 					}
-					if shim != "" {
-						recv := fc.text(x.X)
-						if _, isPtr := info.TypeOf(x.X).Underlying().(*types.Pointer); !isPtr {
-							recv = "&(" + recv + ")"
-						}
+					recv, okRecv := recvPointerText(info, fc, x.X, sel.Index())
+					if shim != "" && okRecv {
 						sid := newSite("sync", fc, label, x.Pos(), funcName, rs+"."+m.Name()+" (method value)")
 						fc.replace(x.Pos(), x.End(), fmt.Sprintf("__simrt.Bind0(__simrt.%s, %d, %s)", shim, sid, recv))
 						ast.Inspect(x.X, func(n ast.Node) bool {
@@ -725,6 +746,35 @@ func rewriteMapRange(label string, p *packages.Package, fc *fileCtx, x *ast.Rang
 
 var goInfo *types.Info
 
+// recvPointerText renders the expression that points at the sync primitive a selection
+// resolves to: `&(x)` for a direct receiver, `&(x).Mutex` through embedded fields.
+func recvPointerText(info *types.Info, fc *fileCtx, x ast.Expr, idx []int) (string, bool) {
+	txt := fc.text(x)
+	t := info.TypeOf(x)
+	if len(idx) > 1 {
+		for _, i := range idx[:len(idx)-1] {
+			if pt, ok := t.Underlying().(*types.Pointer); ok {
+				t = pt.Elem()
+			}
+			st, ok := t.Underlying().(*types.Struct)
+			if !ok {
+				return "", false
+			}
+			f := st.Field(i)
+			txt = "(" + txt + ")." + f.Name()
+			t = f.Type()
+		}
+		if _, isPtr := t.Underlying().(*types.Pointer); !isPtr {
+			txt = "&" + txt
+		}
+		return txt, true
+	}
+	if _, isPtr := t.Underlying().(*types.Pointer); !isPtr {
+		txt = "&(" + txt + ")"
+	}
+	return txt, true
+}
+
 // allPkgs: every package loaded, dependencies included (by import path).
 var allPkgs = map[string]*packages.Package{}
 var funcConcMemo = map[*types.Func]int{} // 0 unknown, 1 no, 2 yes, 3 in progress
@@ -850,6 +900,17 @@ func rewriteGo(label string, fc *fileCtx, g *ast.GoStmt, fn string, isListed boo
 			return
 		}
 	}
+	if sel, ok := call.Fun.(*ast.SelectorExpr); ok {
+		if s := goInfo.Selections[sel]; s != nil && s.Kind() == types.MethodVal {
+			if m, ok := s.Obj().(*types.Func); ok && m.Pkg() != nil && m.Pkg().Path() == "sync" {
+				// go wg.Wait(), go once.Do(f), go mu.Unlock(): the call itself is rewritten to a shim
+				// (handleCall), so the statement only gets a closure around it
+				fc.replace(g.Go, call.Pos(), fmt.Sprintf("__simrt.Go(%d, func() { ", id))
+				fc.insert(call.End(), " })", 9)
+				return
+			}
+		}
+	}
 	funTxt := "__f"
 	hoistFun := true
 	switch f := call.Fun.(type) {
@@ -893,6 +954,13 @@ func rewriteGo(label string, fc *fileCtx, g *ast.GoStmt, fn string, isListed boo
 		}
 		lhs = append(lhs, fmt.Sprintf("__a%d", i))
 		inner = append(inner, fmt.Sprintf("__a%d", i))
+		// an untyped non-constant expression (1<<n, a comparison) would give its temporary the
+		// default type instead of the parameter's: the recorded type is spelled out when it is a
+		// predeclared one (no import needed to name it)
+		if b, ok := tv.Type.(*types.Basic); ok && b.Info()&types.IsUntyped == 0 && b.Kind() != types.UnsafePointer && b.Kind() != types.Invalid {
+			fc.insert(a.Pos(), b.Name()+"(", 0)
+			fc.insert(a.End(), ")", 9)
+		}
 	}
 	spread := ""
 	if call.Ellipsis.IsValid() {
@@ -1047,6 +1115,26 @@ func handleCall(label string, p *packages.Package, fc *fileCtx, c *ast.CallExpr,
 	if s == nil || s.Kind() != types.MethodVal {
 		return
 	}
+	// a lock method called through an interface other than sync.Locker (a library-defined
+	// `interface{ RLock(); RUnlock() }` holding a *sync.RWMutex, or a struct that embeds one):
+	// which primitive it is shows only at run time
+	if _, isIface := info.TypeOf(sel.X).Underlying().(*types.Interface); isIface && len(c.Args) == 0 {
+		switch sel.Sel.Name {
+		case "Lock", "Unlock", "RLock", "RUnlock":
+			if mf, ok := s.Obj().(*types.Func); ok && !(mf.Pkg() != nil && mf.Pkg().Path() == "sync") {
+				sid := newSite("sync", fc, label, c.Pos(), fn, "interface."+sel.Sel.Name)
+				fc.insert(c.Pos(), fmt.Sprintf("__simrt.DynLock(%d, ", sid), 8) // after the hooks placed before the statement
+				fc.replace(sel.X.End(), c.Rparen+1, fmt.Sprintf(", %q)", sel.Sel.Name))
+				ast.Inspect(sel.X, func(n ast.Node) bool {
+					if id, ok := n.(*ast.Ident); ok {
+						syncRecvIdent[id] = true
+					}
+					return true
+				})
+				return
+			}
+		}
+	}
 	m, ok := s.Obj().(*types.Func)
 	if !ok || m.Pkg() == nil {
 		return
@@ -1067,8 +1155,8 @@ func handleCall(label string, p *packages.Package, fc *fileCtx, c *ast.CallExpr,
 		case "sync.Mutex":
 			shim = map[string]string{"Lock": "MutexLock", "Unlock": "MutexUnlock", "TryLock": "MutexTryLock"}[name]
 		case "sync.RWMutex":
-			shim = map[string]string{"Lock": "RWLock", "Unlock": "RWUnlock", "RLock": "RWRLock", "RUnlock": "RWRUnlock"}[name]
-			if shim == "" {
+			shim = map[string]string{"Lock": "RWLock", "Unlock": "RWUnlock", "RLock": "RWRLock", "RUnlock": "RWRUnlock", "TryLock": "RWTryLock", "TryRLock": "RWTryRLock"}[name]
+			if shim == "" && name != "RLocker" { // RLocker only makes a Locker; its methods go through the dynamic shim
 				audit(&inv.Unsim, "sync.RWMutex."+name)
 			}
 		case "sync.Once":
